@@ -10,3 +10,4 @@ Definition derived_value_scalar := Lemmas5.derived_value_scalar.
 Definition remove_closure := Lemmas6.remove_closure.
 Definition remove_values := Lemmas6.remove_values.
 Definition update_id_preserves := Lemmas6.update_id_preserves.
+Definition remove_order_independent := Lemmas6.remove_order_independent.
